@@ -98,6 +98,10 @@ class SymCtx:
     def call(self, fn, *a, **k):
         return self.it.call(fn, *a, **k)
 
+    def call_async(self, fn, *a, **k):
+        """call an ``async def`` of the repo to completion (awaits are driven inline)"""
+        return self.it._await(self.it.call(fn, *a, **k))
+
     def interpret(self, fn, *a, **k):
         """interpret a harness-local function (so that repo code it calls sees the proxies through the interpreter)"""
         return self.it.run_function(fn, a, k)
@@ -166,6 +170,11 @@ class NativeCtx:
 
     def interpret(self, fn, *a, **k):
         return fn(*a, **k)
+
+    def call_async(self, fn, *a, **k):
+        import asyncio
+
+        return asyncio.run(fn(*a, **k))
 
     def count(self, name, n=1):
         self.counters[name] = self.counters.get(name, 0) + n
